@@ -376,7 +376,8 @@ type observation struct {
 	Tries   int      `json:"tries,omitempty"`
 	TmoMs   int      `json:"timeout_ms,omitempty"`
 	Detail  string   `json:"detail,omitempty"`
-	Timing  [][3]int `json:"timing,omitempty"` // timed scripts: (timeout, Enqueue->callback, Enqueue->last SendFunc call) in ms
+	Discard string   `json:"discard,omitempty"` // the scripted schedule could not be established: not a case
+	Timing  [][3]int `json:"timing,omitempty"`  // timed scripts: (timeout, Enqueue->callback, Enqueue->last SendFunc call) in ms
 }
 
 type runner struct {
@@ -790,7 +791,11 @@ func runScript(steps []step, level int, T time.Duration) (observation, int) {
 		// fired and RunCommand has reached its clean-up (also blocked on the mutex)
 		time.Sleep(2 * time.Millisecond)
 		if heldIv != nil {
-			if d := time.Until(heldIv.at.Add(T + 8*time.Millisecond)); d > 0 {
+			margin := T / 3
+			if margin < 8*time.Millisecond {
+				margin = 8 * time.Millisecond
+			}
+			if d := time.Until(heldIv.at.Add(T + margin)); d > 0 {
 				time.Sleep(d)
 			}
 		}
@@ -1213,14 +1218,25 @@ func runCase(in input) (observation, []step) {
 		obs, invalid = runScript(steps, level, T)
 		obs.Tries = try
 		obs.TmoMs = int(T / time.Millisecond)
-		// a lost race is repeated twice only: code that lets somebody else consume the blocked
-		// responder's signal looks the same, and is then reported as observed
-		if invalid == 0 || try >= 6 || (invalid == 2 && try >= 3) {
+		if invalid == 0 {
 			break
 		}
-		if invalid == 1 {
-			T *= 2
+		if try >= 6 || (invalid == 2 && try >= 4) {
+			// The scripted schedule could not be established (a reply meant to arrive before the
+			// timer came after it, or a forced race came out the other way: on a loaded machine the
+			// select may still take the reply although the timer has fired).  The run is not a run
+			// of the script: it is discarded, never compared with the scripted model run.  What is
+			// wrong under every schedule is kept: a RunCommand that returned neither a response nor
+			// an error.
+			if obs.Nils == 0 && obs.Crash == 0 {
+				obs.Discard = "scripted schedule not established"
+				if invalid == 2 {
+					obs.Discard = "forced race not established"
+				}
+			}
+			break
 		}
+		T *= 2
 	}
 	return obs, steps
 }
@@ -2069,10 +2085,16 @@ func main() {
 
 	ops := map[string]int{}
 	notes := map[string]int{}
-	retried, stuck, maxT := 0, 0, 0
+	retried, stuck, maxT, discarded := 0, 0, 0, 0
+	discardKinds := map[string]int{}
 	var cases []gen.Case
 	for i, in := range inputs {
 		ob := obsAll[i]
+		if ob.Discard != "" {
+			discarded++
+			discardKinds[ob.Discard]++
+			continue
+		}
 		_, ann := annotate(in.Steps)
 		for _, s := range ann {
 			ops[s.Op]++
@@ -2093,7 +2115,8 @@ func main() {
 	}
 	extra := map[string]any{"operations": ops, "deliveries": notes, "cases_repeated_for_timing": retried,
 		"cases_stuck": stuck, "max_timeout_ms": maxT, "base_timeout_ms": int(baseTimeout / time.Millisecond),
-		"child_processes_died": crashedChildren, "cases_crashed": crashedCases, "held_steps_supported": holdsSupported}
+		"child_processes_died": crashedChildren, "cases_crashed": crashedCases, "held_steps_supported": holdsSupported,
+		"discarded": discarded, "discarded_why": discardKinds}
 	if err := gen.WriteCases(o, "C12", "From Verif Require Import CmdQueue.", "c12_case", "report12", cases, extra); err != nil {
 		panic(err)
 	}
